@@ -1472,10 +1472,18 @@ def rule_unquote_delimiters(cm, rep, rid):
     if va is None:
         raise AnalysisError('anchor vanished: visitAtom')
     helpers = []
+    def string_token_text(a):
+        if 'STRING' in norm(a):
+            return True
+        try:
+            vals = cm.flow.values_in(va, a)
+        except Exception:       # noqa - the textual test above is the fallback
+            return False
+        return any(v[0] == 'str' and isinstance(v[1], tuple) and v[1][:2] == ('tok', 'STRING') for v in vals)
     for x in own_nodes_ordered(va.node):
-        if isinstance(x, ast.Call) and is_self_attr(x.func) and any('STRING' in norm(a) for a in x.args):
+        if isinstance(x, ast.Call) and is_self_attr(x.func) and any(string_token_text(a) for a in x.args):
             m = cm.repo.lookup_method(vis, x.func.attr)
-            if m is not None:
+            if m is not None and m not in helpers:
                 helpers.append(m)
     rep.minimum('unquoting helpers applied to STRING tokens', len(helpers), 1)
     for m in helpers:
